@@ -237,6 +237,29 @@ fn replay(path: &str) -> i32 {
     };
     let rec_j = j.get("record").unwrap_or(&j);
     match rec_j.str_of("engine") {
+        Some("treapsim") if rec_j.get("by_index").is_some() => {
+            let b = rec_j.get("by_index").unwrap();
+            let (seed, idx) = (b.num_of("seed").unwrap_or(0) as u64, b.num_of("index").unwrap_or(0) as u64);
+            println!("replaying controlled-priority run index {} of seed {}", idx, seed);
+            let res = simcore::par::with_timeout(simcore::par::hang_limit(), move || {
+                rlib_treap::verif::set_priority_source(Some(hook_source));
+                one_run(seed, idx, false).1.violation.map(|v| (v.class(), v.detail))
+            });
+            match res {
+                None => {
+                    println!("REPLAY-VIOLATION class=treap/hang// detail=the run did not finish within {} s", simcore::par::hang_limit().as_secs());
+                    1
+                }
+                Some(Some((c, d))) => {
+                    println!("REPLAY-VIOLATION class={} detail={}", c, d);
+                    1
+                }
+                Some(None) => {
+                    println!("REPLAY-CLEAN");
+                    0
+                }
+            }
+        }
         Some("treapsim") => {
             let rec = match Record::from_json(rec_j) {
                 Some(r) => r,
